@@ -576,15 +576,14 @@ func (pr *ProtoArray) inSubtree(anchorIndex NodeIndex, lookupIndex NodeIndex) (u
 
 var HeadUnknownErr = errors.New("array has invalid state, head has no index")
 
-type prunedNode struct {
-	canonical bool
-	node      *ProtoNode
-}
-
 // Update the tree with new finalization information (or alternatively another trusted root and slot)
 // The slot may point to a gap slot,
 // in which case the node with the anchor block of the anchor block-root is pruned,
 // and the next nodes, up to (and excl.) the anchorSlot.
+//
+// Exactly the nodes that are not the anchor or a (transition) descendant of it are pruned.
+// Each is sent to the node sink first (if any), flagged canonical if it is an ancestor of the anchor.
+// If the sink fails, nothing is pruned and the error is returned: the call can be repeated.
 func (pr *ProtoArray) OnPrune(ctx context.Context, anchorRoot Root, anchorSlot Slot) error {
 	anchorRef := NodeRef{Root: anchorRoot, Slot: anchorSlot}
 	anchorIndex, ok := pr.indices[anchorRef]
@@ -592,50 +591,108 @@ func (pr *ProtoArray) OnPrune(ctx context.Context, anchorRoot Root, anchorSlot S
 		// if the anchor is unknown, then there is nothing to prune anyway.
 		return nil
 	}
-	if anchorIndex == pr.indexOffset {
-		// nothing to do
-		return nil
-	}
-	// Get the head, it will help quickly determine if pruned nodes are canonical
-	head, err := pr.FindHead(anchorRoot, anchorSlot)
+	anchorNode, err := pr.getNode(anchorIndex)
 	if err != nil {
 		return err
 	}
-	headIndex, ok := pr.indices[head]
-	if !ok {
-		return HeadUnknownErr
+	anchor := int(anchorIndex - pr.indexOffset)
+	count := len(pr.nodes)
+	// rel is the position in pr.nodes of a parent of the node at position i (parents come first), or -1.
+	rel := func(parent NodeIndex, i int) int {
+		if parent == NONE || parent < pr.indexOffset || parent-pr.indexOffset >= NodeIndex(i) {
+			return -1
+		}
+		return int(parent - pr.indexOffset)
 	}
-	// Remove the `self.indices` and `self.blockSlots` key/values for all the to-be-deleted nodes.
-	j := 0
-	var pruned []prunedNode
-	for i := pr.indexOffset; i < anchorIndex; i++ {
-		node := &pr.nodes[j]
+	// What stays: the anchor and its descendants.
+	// A block at the slot of an empty-slot anchor fills the slot that the anchor declares empty: it conflicts.
+	keep := make([]bool, count)
+	for i := range pr.nodes {
+		if i == anchor {
+			keep[i] = true
+		} else if p := rel(pr.nodes[i].TransitionParent, i); p >= 0 && keep[p] {
+			keep[i] = !(p == anchor && pr.nodes[i].Ref.Slot == anchorSlot)
+		}
+	}
+	// The ancestors of the anchor are the canonical part of what goes away.
+	canonical := make([]bool, count)
+	for p := rel(anchorNode.TransitionParent, anchor); p >= 0; p = rel(pr.nodes[p].TransitionParent, p) {
+		canonical[p] = true
+	}
+	// Send the nodes to the sink (if any). Only prune if all of them were sent successfully.
+	dropped := 0
+	for i := range pr.nodes {
+		if keep[i] {
+			continue
+		}
 		if pr.sink != nil {
-			canonical := node.BestDescendant == headIndex
-			pruned = append(pruned, prunedNode{canonical, node})
+			if err := pr.sink.OnPrunedNode(ctx, pr.nodes[i].Ref, canonical[i]); err != nil {
+				return err
+			}
+		}
+		dropped++
+	}
+	if dropped == 0 {
+		return nil
+	}
+	// Compact the array: the remaining nodes move up, every index is renumbered.
+	newIndex := make([]NodeIndex, count)
+	next := pr.indexOffset
+	for i := range pr.nodes {
+		newIndex[i] = NONE
+		if keep[i] {
+			newIndex[i] = next
+			next++
 		}
 	}
-	// Send pruned nodes to the node sink (empty if no sink). Continue until it fails.
-	// Only prune what we successfully sent to the sink.
-	prunedUpTo := 0
-	for _, p := range pruned {
-		if err = pr.sink.OnPrunedNode(ctx, p.node.Ref, p.canonical); err != nil {
-			break
+	renumber := func(index NodeIndex) NodeIndex {
+		if index == NONE || index < pr.indexOffset || index-pr.indexOffset >= NodeIndex(count) {
+			return NONE
 		}
-		prunedUpTo++
+		return newIndex[index-pr.indexOffset]
 	}
-	// adjust the slot we know for the anchor root, everything before it was pruned.
-	pr.blockSlots[anchorRoot] = anchorSlot
-	for _, p := range pruned[:prunedUpTo] {
-		delete(pr.indices, p.node.Ref)
-		// Remove the block-slots ref
-		delete(pr.blockSlots, p.node.Ref.Root)
-		// TODO: is this slicing bad for GC?
-		pr.nodes = pr.nodes[1:]
-		// update offset
-		pr.indexOffset++
+	remaining := make([]ProtoNode, 0, cap(pr.nodes))
+	indices := make(map[NodeRef]NodeIndex, len(pr.indices))
+	blockSlots := make(map[Root]Slot, len(pr.blockSlots))
+	for i := range pr.nodes {
+		if !keep[i] {
+			continue
+		}
+		node := pr.nodes[i]
+		node.TransitionParent = renumber(node.TransitionParent)
+		node.ForkchoiceParent = renumber(node.ForkchoiceParent)
+		node.BestChild = renumber(node.BestChild)
+		node.BestDescendant = renumber(node.BestDescendant)
+		indices[node.Ref] = newIndex[i]
+		// the first slot we still know of, for every block root that was known
+		if _, ok := pr.blockSlots[node.Ref.Root]; ok {
+			if slot, seen := blockSlots[node.Ref.Root]; !seen || node.Ref.Slot < slot {
+				blockSlots[node.Ref.Root] = node.Ref.Slot
+			}
+		}
+		remaining = append(remaining, node)
 	}
-	return err
+	// A block whose forkchoice parent went away hangs from the first node that is left of its parent root, if any
+	// (after a full prune: the anchor), which then carries its weight as well.
+	for i := range remaining {
+		node := &remaining[i]
+		if node.ForkchoiceParent != NONE || node.ParentRoot == node.Ref.Root {
+			continue
+		}
+		if parentSlot, ok := blockSlots[node.ParentRoot]; ok && parentSlot < node.Ref.Slot {
+			parentIndex := indices[NodeRef{Root: node.ParentRoot, Slot: parentSlot}]
+			if parentIndex-pr.indexOffset < NodeIndex(i) {
+				node.ForkchoiceParent = parentIndex
+				remaining[parentIndex-pr.indexOffset].Weight += node.Weight
+			}
+		}
+	}
+	pr.nodes = remaining
+	pr.indices = indices
+	pr.blockSlots = blockSlots
+	// Connections are out of sync, i.e. array needs work before next find-head can return the proper head.
+	pr.updatedConnections = false
+	return nil
 }
 
 // Observe the parent at `parent_index` with respect to the child at `child_index` and
